@@ -80,11 +80,25 @@ def compile_db(repo=None):
     if src_repo and os.path.normpath(src_repo) != os.path.normpath(repo):
         # mutant self-tests: the scratch copy has no test/ directory, so the build description is the
         # one of the real tree (same CMakeLists.txt), with paths rewritten to the copy
-        if open(os.path.join(src_repo, "CMakeLists.txt"), "rb").read() != open(os.path.join(repo, "CMakeLists.txt"), "rb").read():
-            raise AnalysisBroken("scratch copy has a different CMakeLists.txt")
+        import re
+        a_txt = open(os.path.join(src_repo, "CMakeLists.txt"), errors="replace").read()
+        b_txt = open(os.path.join(repo, "CMakeLists.txt"), errors="replace").read()
+        pat = re.compile(r"src/[A-Za-z0-9_]+\.c\b")
+        if re.sub(r"\s+", " ", pat.sub("", a_txt)) != re.sub(r"\s+", " ", pat.sub("", b_txt)):
+            raise AnalysisBroken("scratch copy has a different CMakeLists.txt (beyond its list of source files)")
         out = []
         for f, fl in compile_db(src_repo):
             out.append((repo + f[len(src_repo):], [a.replace(src_repo + "/", repo + "/") for a in fl]))
+        # the copy may list other source files than the real tree (a refactoring that moved functions into a new file)
+        want = set(pat.findall(b_txt))
+        had = set(pat.findall(a_txt))
+        base = out[0][1] if out else []
+        for rel in sorted(want - had):
+            p = os.path.join(repo, rel)
+            if os.path.exists(p):
+                out.append((p, list(base)))
+        gone = {os.path.join(repo, rel) for rel in (had - want)}
+        out = [(f, fl) for f, fl in out if f not in gone]
         return out
     cml = os.path.join(repo, "CMakeLists.txt")
     if not os.path.exists(cml):
